@@ -37,6 +37,7 @@ type interpreter struct {
 	runtimeErrorString types.Type
 	pools              map[*value]*poolState
 	ghost              map[string]value
+	events             []evRec
 	depth              int
 }
 
@@ -441,6 +442,8 @@ func prepareCall(fr *frame, call *ssa.CallCommon) (fn value, args []value) {
 		}
 		if _, isRT := recv.v.(rtype); isRT {
 			fn = &rtypeMethod{call.Method.Name()}
+		} else if ho, isHost := recv.v.(*hostObj); isHost && recv.t == hostIfaceT {
+			fn = &hostMethod{ho, call.Method.Name()}
 		} else if f := lookupMethod(fr.i, recv.t, call.Method); f == nil {
 			panic(engineErr{fmt.Sprintf("method set for dynamic type %v does not contain %s", recv.t, call.Method)})
 		} else {
@@ -469,6 +472,8 @@ func call(i *interpreter, caller *frame, callpos token.Pos, fn value, args []val
 		return callSSA(i, caller, callpos, fn.fn, append([]value{fn.recv}, args...), nil)
 	case *rtypeMethod:
 		return callRtypeMethod(caller, fn, args)
+	case *hostMethod:
+		return callHostMethod(caller, fn, args[1:])
 	}
 	panic(engineErr{fmt.Sprintf("cannot call %T", fn)})
 }
@@ -478,6 +483,9 @@ func call(i *interpreter, caller *frame, callpos token.Pos, fn value, args []val
 func callMethod(i *interpreter, caller *frame, recv iface, name string, args ...value) value {
 	if recv.t == nil {
 		panic(rtErr("runtime error: invalid memory address or nil pointer dereference (method on nil interface)"))
+	}
+	if ho, ok := recv.v.(*hostObj); ok && recv.t == hostIfaceT {
+		return callHostMethod(caller, &hostMethod{ho, name}, args)
 	}
 	ms := i.prog.MethodSets.MethodSet(recv.t)
 	for k := 0; k < ms.Len(); k++ {
